@@ -49,6 +49,26 @@ func (p *rtProp) Gen(r *Rng, tier string, i int) map[string]any {
 	return c
 }
 
+// Sweep (C16): every origin time 000000-599999 in the thorough tier, one in eight (offset by the
+// seed) in the quick tier.
+func (p *rtProp) Sweep(tier string, seed uint64) []map[string]any {
+	if p.id != "C16" {
+		return nil
+	}
+	var out []map[string]any
+	stride, off := 8, int(seed%8)
+	if tier == "thorough" {
+		stride, off = 1, 0
+	}
+	for o := off; o < 600000; o += stride {
+		out = append(out, map[string]any{"kind": "realtime", "zone": "UTC", "conflictFree": true, "sweep": true,
+			"ext": map[string]any{"kind": "nycttrips", "filterStale": false, "preserveM": false},
+			"msg": map[string]any{"entities": []any{map[string]any{"id": "e", "tripUpdate": map[string]any{
+				"trip": map[string]any{"tripId": fmt.Sprintf("%06d_A..N", o), "nyct": map[string]any{"isAssigned": false}}}}}}})
+	}
+	return out
+}
+
 func (p *rtProp) Fixed() []map[string]any {
 	if p.fixed != nil {
 		return p.fixed()
